@@ -8,6 +8,7 @@ from typing import Dict, List, Optional, Set
 from sa.pm import Program, FuncInfo, ClassInfo, dotted, norm, calls_in, walk_no_nested, AnalysisError, kwarg
 from sa.poly import Poly, to_poly, nonneg_given
 from rules.common import local_single_defs, substitute_locals, find_for_loops, stores_to_self_attr
+from rules.common import split_or_return_guards as _split_guards
 from rules.c13 import k_loop_protocol, loop_with_solver_run
 
 
@@ -221,14 +222,26 @@ MGS_ARGS = {
 
 def comprehension_excludes_ignored(e: ast.AST) -> bool:
     """A set/list comprehension (possibly wrapped in set()/list()) over the edges with a `... not in self.edges_to_ignore` filter."""
+    from sa import boolnf as B
+    import copy
     for n in ast.walk(e):
         if isinstance(n, (ast.SetComp, ast.ListComp, ast.GeneratorExp, ast.DictComp)):
             for g in n.generators:
-                for cond in g.ifs:
-                    for c in ast.walk(cond):
-                        if isinstance(c, ast.Compare) and len(c.ops) == 1 and isinstance(c.ops[0], ast.NotIn) and \
-                                "edges_to_ignore" in norm(c.comparators[0]):
-                            return True
+                if not g.ifs:
+                    continue
+                # the filter as one formula; it has to imply `<element> not in <ignore set>` (also written `not (... or e in ignored)`, or as an early `continue`)
+                member = [c for cond in g.ifs for c in ast.walk(cond) if isinstance(c, ast.Compare) and len(c.ops) == 1 and isinstance(c.ops[0], (ast.In, ast.NotIn)) and
+                          "edges_to_ignore" in norm(c.comparators[0])]
+                if not member:
+                    continue
+                want = copy.deepcopy(member[0])
+                want.ops = [ast.NotIn()]
+                try:
+                    f_ = B.mk_and([B.parse(c) for c in g.ifs])
+                    if B.implies(f_, B.parse(want)):
+                        return True
+                except Exception:
+                    raise AnalysisError(f"filter `{norm(g.ifs[0])[:80]}` of a distinct-values set could not be read")
     return False
 
 
@@ -240,7 +253,10 @@ def lowerbound_rule(prog: Program, rep, RID: str, cname: str, allow_log2: bool):
     defs = {}
     # locals in this function (possibly multiply assigned under ifs): collect all definitions
     multi: Dict[str, List[ast.AST]] = {}
-    for n in walk_no_nested(f.node):
+    # (accumulator loops - `s = set(); for e in E: if c: continue; s.add(f(e))` - are read as the comprehension they compute)
+    from sa.mir import comprehensionise
+    folded = ast.Module(body=comprehensionise(f.node.body), type_ignores=[])
+    for n in walk_no_nested(folded):
         if isinstance(n, ast.Assign) and len(n.targets) == 1 and isinstance(n.targets[0], ast.Name):
             multi.setdefault(n.targets[0].id, []).append(n.value)
 
@@ -397,7 +413,7 @@ def provider_function_rule(prog: Program, rep, RID: str, cname: str, g: FuncInfo
                 excess_style = "in_edges" in txt_sf and ".get(self.flow_attr, 0)" in txt_sf
                 keyt = f"{cname}.{g.name}:total-needs-all-values"
                 if excess_style:
-                    early = [st_ for st_ in walk_no_nested(g.node) if isinstance(st_, ast.If) and st_.lineno < c.lineno and
+                    early = [st_ for st_ in walk_no_nested(_split_guards(g.node)) if isinstance(st_, ast.If) and st_.lineno < c.lineno and
                              any(isinstance(x, ast.Return) and (x.value is None or (isinstance(x.value, ast.Constant) and x.value.value is None)) for x in st_.body)
                              and "self.flow_attr not in" in norm(st_.test) and "self.G.edges" in norm(st_.test) and "edges_to_ignore" not in norm(st_.test)]
                     if early:
@@ -407,7 +423,7 @@ def provider_function_rule(prog: Program, rep, RID: str, cname: str, g: FuncInfo
                                       "although edges without a value can exist (the edges between expanded nodes in node-weighted mode): every node counts as a source, "
                                       "the total is too large and the bound exceeds the optimum (a(3)->b(3): bound 2, optimum 1)", g.loc(c))
                 else:
-                    early = [st_ for st_ in walk_no_nested(g.node) if isinstance(st_, ast.If) and st_.lineno < c.lineno and
+                    early = [st_ for st_ in walk_no_nested(_split_guards(g.node)) if isinstance(st_, ast.If) and st_.lineno < c.lineno and
                              any(isinstance(x, ast.Return) and (x.value is None or (isinstance(x.value, ast.Constant) and x.value.value is None)) for x in st_.body)
                              and "self.flow_attr not in" in norm(st_.test) and "self.G.edges" in norm(st_.test) and "edges_to_ignore" not in norm(st_.test)]
                     if early:
